@@ -184,8 +184,9 @@ TRemove ==
   /\ Run("Hk") /\ E.k = "proxy.remove"
   /\ IF E.x \in DOMAIN reg
        THEN LET c == cs[reg[E.x]] IN
-            IF c.att = "ing" /\ c.prev # 0 /\ Failed(cs[c.prev])
-              THEN UNCHANGED reg    \* the failed registration which an AddClient in progress is about to replace
+            IF c.att = "ing" /\ \E i \in DOMAIN cs : i # reg[E.x] /\ cs[i].name = E.x /\ Failed(cs[i])
+              THEN UNCHANGED reg    \* a failed registration (an earlier one, or the dial this routing started) which an
+                                    \* AddClient in progress is about to replace - the Attach line is logged before its lock
               ELSE (cancelled \/ Failed(c)) = TRUE /\ reg' = Del(reg, E.x)
        ELSE UNCHANGED reg      \* a second report of a connection that is gone already: nothing to forget
   /\ UNCHANGED <<pc, phase, cs, cur, cancelled, dropped, avars>>
